@@ -34,6 +34,7 @@ def plan(tier, seed):
     n = N[tier]
     shards = [{"_label": f"hist{i}", "kind": "histories", "seed": seed, "shard": i, "histories": n["histories"] // 16, "steps": n["steps"]} for i in range(15)]
     shards.append({"_label": "catalogue-trace", "kind": "catalogue", "seed": seed})
+    shards.append({"_label": "suite", "kind": "suite", "tier": tier, "_timeout": 2400})
     return shards
 
 
@@ -304,6 +305,10 @@ def wrappers(rec, r):
 
 
 def work(spec, rec):
+    if spec["kind"] == "suite":
+        harness.run_suite("C09", harness.SUITE_QUICK if spec["tier"] == "quick" else harness.SUITE_FULL, rec)
+        rec.case(("suite", spec["tier"]))
+        return
     import symplyphysics  # noqa pylint: disable=unused-import
     trace = Trace(rec)
     trace.attach()
